@@ -39,9 +39,13 @@ def main(argv):
         if sorted(v.cls_key() for v in viols) != sorted(v.cls_key() for v in viols2):
             print('HARNESS-ERROR: two replays of %s observed different things' % argv[1])
             return 2
-        same = [v for v in viols if v.sub == rec['sub']] or viols
+        # known findings that happen to live in the same state are not what this record is about
+        known = common.load_known()
+        viols = [v for v in viols if common.match_known(v, known) is None]
+        exact = [v for v in viols if v.sub == rec['sub'] and all(v.sig.get(k) == val for k, val in rec['sig'].items())]
+        same = exact or [v for v in viols if v.sub == rec['sub']] or viols
         if same:
-            print('REPLAY FAILS property=%s sub=%s' % (rec['property'], rec['sub']))
+            print('REPLAY FAILS property=%s sub=%s%s' % (rec['property'], rec['sub'], '' if exact else ' (another class of the same sub-oracle than the one recorded)'))
             for v in same[:5]:
                 print('  sig=%s' % json.dumps(v.sig, sort_keys=True, default=repr))
                 print('  %s' % json.dumps(v.detail, default=repr)[:800])
